@@ -17,7 +17,7 @@ from ..hist import RULE_SUFFIX as _RS
 RULE = RULE + _RS
 ASSUMPTIONS = ['"a small constant times eps" is fixed a priori as 10*eps', 'C++ backend off here (use_cpp=False); C17 covers it', 'amen_mv/amen_mm are exercised with real dtypes (their inner products are not conjugated)']
 REQUIRED_REACH = ['_dmrg:dmrg_matvec_python', '_dmrg:dmrg_hadamard_python', '_amen:_amen_mm_python', '_amen:amen_mv', '_amen:amen_mm', '_tt_base:TT.fast_matvec']
-REQUIRED_COUNTS = {'history_value_checks': 100, 'routine:fast_matvec': 1, 'routine:dmrg_hadamard': 1, 'routine:amen_mv': 1, 'routine:amen_mm': 1, 'guess:user': 1, 'guess:coarse': 10, 'guess:block': 5, 'budget:nswp=1': 1, 'budget:nswp=2': 1, 'order:1': 1, 'order:2': 1, 'executions': 300}
+REQUIRED_COUNTS = {'history_value_checks': 100, 'routine:fast_matvec': 1, 'routine:dmrg_hadamard': 1, 'routine:amen_mv': 1, 'routine:amen_mm': 1, 'guess:user': 1, 'guess:coarse': 10, 'guess:block': 5, 'structure:cancellation': 5, 'budget:nswp=1': 1, 'budget:nswp=2': 1, 'order:1': 1, 'order:2': 1, 'executions': 300}
 LINE_FUNCS = ['dmrg_matvec_python', 'dmrg_hadamard_python', '_amen_mm_python']
 CASE_TIMEOUT = {'quick': 180, 'thorough': 400}
 MAX_TIMEOUT_FRACTION = 0.0
@@ -88,6 +88,15 @@ def cases(tier, seed):
         d = rng.choice([3, 4])
         cs.append({'gen': 'prod', 'routine': routine, 'M': [3] * d, 'N': [3] * d, 'K': [2] * d, 'RA': [1] + [2] * (d - 1) + [1], 'RB': [1] + [2] * (d - 1) + [1], 'vals': 'gauss',
                    'eps': 10 ** rng.uniform(-10, -5), 'guess': 'block', 'dtype': 'c128' if (i % 8 == 5 and routine != 'amen_mv') else 'f64', 'vseed': rng.randrange(2 ** 40), 'RG': [1] * (d + 1), 'sidx': 0, 'scale': 1.0})
+    # directed: CANCELLATION - the product is much smaller than its operands: an operator whose rows sum to zero applied to ones + (eps/50)*noise; a 0/1 mask times a
+    # tensor that is large off the mask and O(eps/50) on it.  The contract is relative to the PRODUCT.
+    for i in range(16 if not T else 160):
+        routine = ['fast_matvec', 'dmrg_hadamard', 'amen_mv', 'dmrg_hadamard'][i % 4]
+        d = rng.choice([3, 3, 4])
+        n = rng.choice((4, 5, 6))
+        cs.append({'gen': 'prod', 'routine': routine, 'M': [n] * d, 'N': [n] * d, 'K': [2] * d, 'RA': [1] * (d + 1), 'RB': [1] + [rng.randint(1, 3) for _ in range(d - 1)] + [1], 'vals': 'gauss',
+                   'eps': 10 ** rng.uniform(-6, -2), 'guess': 'none', 'cancel': True, 'dtype': 'c128' if (i % 8 == 5 and routine != 'amen_mv') else 'f64', 'vseed': rng.randrange(2 ** 40),
+                   'RG': [1] * (d + 1), 'sidx': 0, 'scale': 1.0})
     # directed: exhausted sweep budget (nswp=1,2): the final-sweep branch of the DMRG/AMEn loops (no enrichment, transposed factor); the accuracy clause is NOT demanded here
     # (the statement is about the default budgets) - only kind/shape/well-formed/finite
     for i in range(24 if not T else 160):
@@ -174,6 +183,36 @@ def run_case(case, ctx):
             guess = mk(case, g, K, case['RG'], M=M, vals='gauss')
         f = (lambda a, b, c: torchtt.amen_mm(a, b, X0=c, eps=eps)) if guess is not None else (lambda a, b: torchtt.amen_mm(a, b, eps=eps))
         ops = (A, x)
+    if case.get('cancel'):
+        n_ = N[0]
+        delta = eps / 50.0
+        zt = mk(case, g, N, case['RB'])
+        zt = ctx.call('TT*scalar', lambda t: t * (delta / max(dn.fro(dn.D(t)), 1e-300) * (n_ ** d) ** 0.5), zt)     # entries of size ~delta
+        ones_ = torchtt.ones(N, dtype=dt)
+        if routine == 'dmrg_hadamard':
+            mvec = [torch.tensor([1.0] * (n_ // 2) + [0.0] * (n_ - n_ // 2), dtype=dt) for _ in range(d)]
+            msk = torchtt.rank1TT(mvec)                                               # 0/1 mask of rank one
+            big = ctx.call('TT-TT', lambda a_, b_: (a_ - b_) * 7.0, ones_, msk)       # large off the mask, exactly zero on it
+            x = ctx.call('TT+TT', lambda a_, b_: a_ + b_, big, zt)
+            A = msk
+            ref = dn.D(A) * dn.D(x)
+            wantN, wantM = N, None
+            f = lambda a, b: torchtt.dmrg_hadamard(a, b, eps=eps)
+        else:
+            Lk = []
+            for _ in range(d):
+                L = 2.0 * torch.eye(n_, dtype=dt) - torch.roll(torch.eye(n_, dtype=dt), 1, 0) - torch.roll(torch.eye(n_, dtype=dt), -1, 0)   # circulant second difference: rows sum to zero
+                Lk.append(L.reshape(1, n_, n_, 1))
+            A = torchtt.TT(Lk)
+            x = ctx.call('TT+TT', lambda a_, b_: a_ + b_, ones_, zt)
+            ref = torch.tensordot(dn.D(A), dn.D(x), dims=d)
+            wantN, wantM = N, None
+            f = (lambda a, b: a.fast_matvec(b, eps=eps, use_cpp=False)) if routine == 'fast_matvec' else (lambda a, b: torchtt.amen_mv(a, b, eps=eps))
+        M = N
+        ops = (A, x)
+        guess = None
+        ctx.count('structure:cancellation')
+        ctx.metric('product_norm_over_operand_norms', dn.fro(ref) / max(dn.fro(dn.D(A)) * dn.fro(dn.D(x)), 1e-300))
     if case['guess'] == 'block':
         # rebuild the operands as direct sums over two index blocks and take the exact product of the first blocks as the guess (library + and @ / *, decided by C03/C04)
         def emb(t, off, tot, op=False):
